@@ -1,0 +1,264 @@
+//go:build verif
+
+package stream
+
+// Contracts for the deductive verifier in /verif (properties C07, C08, C09). Only part of the
+// build under the tag `verif`.
+//
+// Source protocol (assumed of caller-supplied streams). A stream denotes a fixed finite sequence
+// seq[0..n); pos items have been handed out. Next either hands out the next item, reports End at
+// the end, or FAILS with an arbitrary error (context expired, transient source failure ...)
+// leaving pos unchanged; lasterr records the error of the last call so that wrappers can be
+// shown to pass it on unchanged. closes counts Close calls; Next and Close require closes == 0.
+
+//@ ghost Stream.seq seq[T]
+//@ ghost Stream.n int
+//@ ghost Stream.pos int
+//@ ghost Stream.pulls int
+//@ ghost Stream.closes int
+//@ ghost Stream.lasterr error
+
+//@ ghost Context.errv error
+
+//@ ext context.Context.Err(ctx) (e)
+//@   ispure
+//@   ensures e == ctx.errv
+
+//@ pred stInv(s) = s != nil && 0 <= s.pos && s.pos <= s.n && s.closes == 0
+
+//@ ext stream.Stream.Next(s, ctx) (item, err)
+//@   requires stInv(s)
+//@   modifies s.pos, s.pulls, s.lasterr
+//@   ensures stInv(s) && s.pulls == old(s.pulls) + 1 && s.lasterr == err
+//@   ensures err == nil ==> old(s.pos) < s.n && item == s.seq[old(s.pos)] && s.pos == old(s.pos) + 1
+//@   ensures err == End ==> old(s.pos) >= s.n
+//@   ensures err != nil ==> s.pos == old(s.pos) && item == zero(item)
+
+//@ ext stream.Stream.Close(s)
+//@   requires s != nil && s.closes == 0
+//@   modifies s.closes
+//@   ensures s.closes == 1
+
+// a failed call of the source: its error comes out unchanged and the source did not move
+//@ pred srcFailed(inner, err) = err != nil && err == inner.lasterr && inner.pos == old(inner.pos)
+
+// ---- Close of the simple wrappers: forwards exactly once (C09) ----
+
+//@ func mapStream.Close
+//@   props C09
+//@   requires s.inner != nil && s.inner.closes == 0
+//@   modifies s.inner.closes
+//@   ensures s.inner.closes == 1
+
+//@ func filterStream.Close
+//@   props C09
+//@   requires s.inner != nil && s.inner.closes == 0
+//@   modifies s.inner.closes
+//@   ensures s.inner.closes == 1
+
+//@ func firstStream.Close
+//@   props C09
+//@   requires s.inner != nil && s.inner.closes == 0
+//@   modifies s.inner.closes
+//@   ensures s.inner.closes == 1
+
+//@ func whileStream.Close
+//@   props C09
+//@   requires s.inner != nil && s.inner.closes == 0
+//@   modifies s.inner.closes
+//@   ensures s.inner.closes == 1
+
+//@ func chunkStream.Close
+//@   props C09
+//@   requires s.inner != nil && s.inner.closes == 0
+//@   modifies s.inner.closes
+//@   ensures s.inner.closes == 1
+
+//@ func compactStream.Close
+//@   props C09
+//@   requires s.inner != nil && s.inner.closes == 0
+//@   modifies s.inner.closes
+//@   ensures s.inner.closes == 1
+
+//@ func peekable.Close
+//@   props C09
+//@   requires s.inner != nil && s.inner.closes == 0
+//@   modifies s.inner.closes
+//@   ensures s.inner.closes == 1
+
+//@ func flattenSlicesStream.Close
+//@   props C09
+//@   requires s.inner != nil && s.inner.closes == 0
+//@   modifies s.inner.closes
+//@   ensures s.inner.closes == 1
+
+// ---- sources ----
+
+//@ func emptyStream.Next
+//@   props C07
+//@   ensures result1 == End && result0 == zero(result0)
+
+//@ func errorStream.Next
+//@   props C07 C08
+//@   ensures result1 == s.err && result0 == zero(result0)
+
+//@ func FromIterator
+//@   props C07
+//@   ensures fresh(result) && result.(*iteratorStream[T]).iter == iter
+
+//@ func iteratorStream.Next
+//@   props C07 C08
+//@   requires itInv(s.iter)
+//@   modifies s.iter.pos, s.iter.pulls
+//@   ensures itInv(s.iter)
+//@   ensures ctx.errv != nil ==> result1 == ctx.errv && result0 == zero(result0) && untouched(s.iter)
+//@   ensures ctx.errv == nil ==> nextSpec(s.iter, result0, result1 == nil) && (result1 == nil || result1 == End)
+
+// ---- combinators ----
+
+//@ func Map
+//@   props C07
+//@   ensures fresh(result) && result.(*mapStream[T, U]).inner == s && result.(*mapStream[T, U]).f == f
+
+//@ func mapStream.Next
+//@   props C07 C08
+//@   requires stInv(s.inner) && s.f != nil
+//@   modifies s.inner.pos, s.inner.pulls, s.inner.lasterr
+//@   ensures stInv(s.inner) && s.inner.pulls == old(s.inner.pulls) + 1
+//@   ensures result1 == nil ==> s.inner.pos == old(s.inner.pos) + 1 && s.f(ctx, s.inner.seq[old(s.inner.pos)]).1 == nil && result0 == s.f(ctx, s.inner.seq[old(s.inner.pos)]).0
+//@   ensures result1 != nil ==> result0 == zero(result0)
+//@   ensures C08: result1 != nil ==> srcFailed(s.inner, result1) || (s.inner.pos == old(s.inner.pos) + 1 && result1 == s.f(ctx, s.inner.seq[old(s.inner.pos)]).1)
+//@   ensures result1 == End ==> old(s.inner.pos) >= s.inner.n || s.f(ctx, s.inner.seq[old(s.inner.pos)]).1 == End
+
+//@ func Filter
+//@   props C07
+//@   ensures fresh(result) && result.(*filterStream[T]).inner == s && result.(*filterStream[T]).keep == keep
+
+//@ func filterStream.Next
+//@   props C07 C08
+//@   requires stInv(s.inner) && s.keep != nil
+//@   modifies s.inner.pos, s.inner.pulls, s.inner.lasterr
+//@   loop 0: invariant stInv(s.inner) && old(s.inner.pos) <= s.inner.pos && s.inner.pulls == old(s.inner.pulls) + s.inner.pos - old(s.inner.pos)
+//@   loop 0: invariant forall t int {s.inner.seq[t]} :: old(s.inner.pos) <= t && t < s.inner.pos ==> s.keep(ctx, s.inner.seq[t]).1 == nil && !s.keep(ctx, s.inner.seq[t]).0
+//@   ensures stInv(s.inner)
+//@   ensures forall t int {s.inner.seq[t]} :: old(s.inner.pos) <= t && t < s.inner.pos - 1 ==> s.keep(ctx, s.inner.seq[t]).1 == nil && !s.keep(ctx, s.inner.seq[t]).0
+//@   ensures result1 == nil ==> old(s.inner.pos) < s.inner.pos && result0 == s.inner.seq[s.inner.pos-1] && s.keep(ctx, result0).1 == nil && s.keep(ctx, result0).0
+//@       && s.inner.pulls == old(s.inner.pulls) + s.inner.pos - old(s.inner.pos)
+//@   ensures result1 != nil ==> result0 == zero(result0)
+//@   ensures C08: result1 != nil ==> (result1 == s.inner.lasterr && s.inner.pulls == old(s.inner.pulls) + s.inner.pos - old(s.inner.pos) + 1
+//@            && (forall t int {s.inner.seq[t]} :: old(s.inner.pos) <= t && t < s.inner.pos ==> s.keep(ctx, s.inner.seq[t]).1 == nil && !s.keep(ctx, s.inner.seq[t]).0))
+//@       || (old(s.inner.pos) < s.inner.pos && result1 == s.keep(ctx, s.inner.seq[s.inner.pos-1]).1)
+//@   ensures result1 == End ==> s.inner.pos >= s.inner.n || (old(s.inner.pos) < s.inner.pos && s.keep(ctx, s.inner.seq[s.inner.pos-1]).1 == End)
+
+//@ func First
+//@   props C07
+//@   ensures fresh(result) && result.(*firstStream[T]).inner == s && result.(*firstStream[T]).x == n
+
+//@ func firstStream.Next
+//@   props C07 C08
+//@   requires stInv(s.inner)
+//@   modifies s.x, s.inner.pos, s.inner.pulls, s.inner.lasterr
+//@   ensures stInv(s.inner)
+//@   ensures old(s.x) <= 0 ==> result1 == End && result0 == zero(result0) && s.inner.pos == old(s.inner.pos) && s.inner.pulls == old(s.inner.pulls) && s.x == old(s.x)
+//@   ensures old(s.x) > 0 ==> s.inner.pulls == old(s.inner.pulls) + 1
+//@   ensures old(s.x) > 0 && result1 == nil ==> s.x == old(s.x) - 1 && s.inner.pos == old(s.inner.pos) + 1 && result0 == s.inner.seq[old(s.inner.pos)]
+//@   ensures C08: old(s.x) > 0 && result1 != nil ==> srcFailed(s.inner, result1) && s.x == old(s.x) && result0 == zero(result0)
+
+//@ func While
+//@   props C07
+//@   ensures fresh(result) && result.(*whileStream[T]).inner == s && result.(*whileStream[T]).f == f && !result.(*whileStream[T]).done && !result.(*whileStream[T]).has
+
+// the buffered item (when has) is the one just before the source position
+//@ pred whRep(s) = stInv(s.inner) && s.f != nil && (s.has ==> s.inner.pos >= 1 && s.item == s.inner.seq[s.inner.pos-1])
+// position of the next item the consumer has not been given yet
+//@ pure whPos(s) = s.inner.pos - (s.has ? 1 : 0)
+
+//@ func whileStream.Next
+//@   props C07 C08
+//@   requires whRep(s)
+//@   modifies s.item, s.has, s.done, s.inner.pos, s.inner.pulls, s.inner.lasterr
+//@   ensures whRep(s)
+//@   ensures old(s.done) ==> result1 == End && result0 == zero(result0) && s.done && s.inner.pos == old(s.inner.pos) && s.inner.pulls == old(s.inner.pulls)
+//@   ensures !old(s.done) ==> s.inner.pulls == old(s.inner.pulls) + (old(s.has) ? 0 : 1)
+//@   ensures result1 == nil ==> !old(s.done) && !s.done && !s.has && whPos(s) == old(whPos(s)) + 1 && result0 == s.inner.seq[old(whPos(s))]
+//@       && s.f(ctx, result0).1 == nil && s.f(ctx, result0).0
+//@   ensures result1 != nil ==> result0 == zero(result0)
+//@   ensures C08: result1 != nil && !old(s.done) ==> whPos(s) == old(whPos(s))
+//@   ensures C08: result1 != nil && !old(s.done) ==> (!s.has && !old(s.has) && srcFailed(s.inner, result1) && !s.done)
+//@       || (s.has && result1 == s.f(ctx, s.item).1 && !s.done)
+//@       || (s.has && s.done && result1 == End && s.f(ctx, s.item).1 == nil && !s.f(ctx, s.item).0)
+
+//@ func Chunk
+//@   props C07
+//@   ensures fresh(result) && result.(*chunkStream[T]).inner == s && result.(*chunkStream[T]).chunkSize == chunkSize && result.(*chunkStream[T]).chunk == nil
+
+// the pending chunk is the suffix of what the source has handed out
+//@ pred ckRep(s) = stInv(s.inner) && s.chunkSize >= 1 && len(s.chunk) < s.chunkSize && len(s.chunk) <= s.inner.pos
+//@   && (forall t int {s.chunk[t]} :: 0 <= t && t < len(s.chunk) ==> s.chunk[t] == s.inner.seq[s.inner.pos - len(s.chunk) + t])
+//@ pure ckPos(s) = s.inner.pos - len(s.chunk)
+
+//@ func chunkStream.Next
+//@   props C07 C08
+//@   requires ckRep(s)
+//@   modifies s.chunk, elems(s.chunk), s.inner.pos, s.inner.pulls, s.inner.lasterr
+//@   loop 0: invariant (s.chunk == nil || arr(s.chunk) == old(arr(s.chunk)) || fresh(s.chunk))
+//@   loop 0: invariant ckRep(s) && ckPos(s) == old(ckPos(s)) && old(s.inner.pos) <= s.inner.pos && s.inner.pulls == old(s.inner.pulls) + s.inner.pos - old(s.inner.pos)
+//@   ensures ckRep(s)
+//@   ensures result1 == nil ==> len(result0) >= 1 && len(result0) == min(s.chunkSize, s.inner.n - old(ckPos(s))) && ckPos(s) == old(ckPos(s)) + len(result0) && len(s.chunk) == 0
+//@       && (forall t int {result0[t]} :: 0 <= t && t < len(result0) ==> result0[t] == s.inner.seq[old(ckPos(s)) + t])
+//@   ensures result1 != nil ==> result0 == nil
+//@   ensures result1 == End ==> old(ckPos(s)) >= s.inner.n && s.inner.pos == old(s.inner.pos)
+//@   ensures C08: result1 != nil && result1 != End ==> result1 == s.inner.lasterr && ckPos(s) == old(ckPos(s))
+
+//@ func CompactFunc
+//@   props C07
+//@   ensures fresh(result) && result.(*compactStream[T]).inner == s && result.(*compactStream[T]).eq == eq && result.(*compactStream[T]).first
+
+//@ func compactStream.Next
+//@   props C07 C08
+//@   requires stInv(s.inner) && s.eq != nil
+//@   modifies s.prev, s.first, s.inner.pos, s.inner.pulls, s.inner.lasterr
+//@   loop 0: invariant stInv(s.inner) && old(s.inner.pos) <= s.inner.pos && s.inner.pulls == old(s.inner.pulls) + s.inner.pos - old(s.inner.pos)
+//@   loop 0: invariant s.first == old(s.first) && s.prev == old(s.prev) && (s.first ==> s.inner.pos == old(s.inner.pos))
+//@   loop 0: invariant forall t int {s.inner.seq[t]} :: old(s.inner.pos) <= t && t < s.inner.pos ==> s.eq(s.prev, s.inner.seq[t])
+//@   ensures stInv(s.inner)
+//@   ensures result1 == nil ==> old(s.inner.pos) < s.inner.pos && result0 == s.inner.seq[s.inner.pos-1] && s.prev == result0 && !s.first
+//@   ensures result1 == nil && old(s.first) ==> s.inner.pos == old(s.inner.pos) + 1
+//@   ensures result1 == nil && !old(s.first) ==> !s.eq(old(s.prev), result0)
+//@       && (forall t int {s.inner.seq[t]} :: old(s.inner.pos) <= t && t < s.inner.pos - 1 ==> s.eq(old(s.prev), s.inner.seq[t]))
+//@   ensures C08: result1 != nil ==> result1 == s.inner.lasterr && result0 == zero(result0) && s.first == old(s.first) && s.prev == old(s.prev)
+//@       && (!old(s.first) ==> (forall t int {s.inner.seq[t]} :: old(s.inner.pos) <= t && t < s.inner.pos ==> s.eq(old(s.prev), s.inner.seq[t])))
+//@       && (old(s.first) ==> s.inner.pos == old(s.inner.pos))
+//@   ensures result1 == End ==> s.inner.pos >= s.inner.n
+
+// ---- reducers: the stream is closed exactly once on every exit (C09), errors come out (C08) ----
+
+//@ func Collect
+//@   props C07 C08 C09
+//@   requires stInv(s)
+//@   modifies s.pos, s.pulls, s.lasterr, s.closes
+//@   loop 0: invariant stInv(s) && old(s.pos) <= s.pos && len(out) == s.pos - old(s.pos) && (out == nil || fresh(out))
+//@   loop 0: invariant forall t int {out[t]} :: 0 <= t && t < len(out) ==> out[t] == s.seq[old(s.pos) + t]
+//@   ensures C09: s.closes == 1
+//@   ensures result1 == nil ==> s.pos == s.n && len(result0) == s.n - old(s.pos) && (forall t int {result0[t]} :: 0 <= t && t < len(result0) ==> result0[t] == s.seq[old(s.pos) + t])
+//@   ensures C08: result1 != nil ==> result0 == nil && result1 == s.lasterr && result1 != End
+
+//@ func Reduce
+//@   props C07 C08 C09
+//@   requires stInv(s) && f != nil
+//@   modifies s.pos, s.pulls, s.lasterr, s.closes
+//@   loop 0: invariant stInv(s) && old(s.pos) <= s.pos
+//@   ensures C09: s.closes == 1
+//@   ensures C08: result1 != nil ==> (result1 == s.lasterr && result1 != End) || (s.pos >= 1 && exists a U :: result1 == f(a, s.seq[s.pos-1]).1)
+//@   ensures result1 == nil ==> s.pos == s.n
+
+//@ func One
+//@   props C07 C08 C09
+//@   requires stInv(s)
+//@   modifies s.pos, s.pulls, s.lasterr, s.closes
+//@   ensures C09: s.closes == 1
+//@   ensures result1 == nil ==> old(s.n - s.pos) == 1 && result0 == s.seq[old(s.pos)]
+//@   ensures result1 == ErrEmpty ==> old(s.n - s.pos) == 0 || result1 == s.lasterr
+//@   ensures result1 == ErrMoreThanOne ==> old(s.n - s.pos) >= 2 || result1 == s.lasterr
+//@   ensures result1 != nil ==> result0 == zero(result0)
+//@   ensures C08: result1 != nil && result1 != ErrEmpty && result1 != ErrMoreThanOne ==> result1 == s.lasterr
